@@ -229,7 +229,11 @@ func (a *countAppender) Stop()           {}
 func (a *countAppender) GetName() string { return "count" }
 func (a *countAppender) Append(e *log.Event) {
 	a.mu.Lock()
-	a.items[fmt.Sprintf("E%d", e.Fields[0].Num)]++
+	if len(e.Fields) == 0 {
+		a.items["BLANK-EVENT"] += 2 // an event nobody submitted (reported as delivered-twice / foreign)
+	} else {
+		a.items[fmt.Sprintf("E%d", e.Fields[0].Num)]++
+	}
 	a.mu.Unlock()
 }
 func (a *countAppender) Write(b []byte) {
